@@ -300,6 +300,21 @@ def b1(run, project, roles):
     rets = [s_ for s_ in ast.walk(a) if isinstance(s_, ast.Return)]
     ok = len(rets) == 1 and a.args.vararg is not None and a.args.kwarg is not None and \
         norm(rets[0].value) == f"self._value.to_bytes(*{a.args.vararg.arg}, **{a.args.kwarg.arg})"
+    if not ok and len(rets) == 1 and a.args.vararg is None and a.args.kwarg is None:
+        # the same forwarding with int.to_bytes' own signature spelled out: (length=1, byteorder='big', *, signed=False)
+        pos = [x.arg for x in a.args.args][1:]
+        dfl = [norm(d) for d in a.args.defaults]
+        kwo = [(x.arg, norm(d) if d is not None else None) for x, d in zip(a.args.kwonlyargs, a.args.kw_defaults)]
+        if pos == ["length", "byteorder"] and dfl == ["1", "'big'"] and kwo == [("signed", "False")]:
+            c = rets[0].value
+            if isinstance(c, ast.Call) and norm(c.func) == "self._value.to_bytes":
+                got = {"length": None, "byteorder": None, "signed": None}
+                for p_, x in zip(("length", "byteorder"), c.args):
+                    got[p_] = norm(x)
+                for k in c.keywords:
+                    if k.arg in got:
+                        got[k.arg] = norm(k.value)
+                ok = got == {"length": "length", "byteorder": "byteorder", "signed": "signed"} and len(c.args) <= 2
     run.ob("B1", ok, "AlgValue.to_bytes forwards all arguments to int.to_bytes",
            f"returns `{norm(rets[0].value) if rets else '?'}`", module=cm, node=a, func="AlgValue.to_bytes")
 
@@ -358,6 +373,16 @@ def b2_b3(run, project):
             lp = y._parent._parent
             ok = norm(lp.iter) in (evs, f"iter({evs})") and len(lp.body) == 1 and isinstance(y.value, ast.Call) and \
                 call_name(y.value) == "to_bytes" and norm(y.value.args[0]) == norm(lp.target)
+    if not ok:
+        # the same statement in another spelling (map(to_bytes, events), a helper): decided on the path summary
+        ups = paths.summarise(mod, u)
+        if len(ups) == 1 and ups[0].end in ("fall", "return") and (ups[0].value is None or ups[0].value_text() == "None"):
+            fx = [(k, e) for k, e, _n in ups[0].effects if k in ("yield", "yieldfrom", "loop", "call", "store")]
+            if len(fx) == 1 and fx[0][0] == "yieldfrom" and isinstance(fx[0][1], ast.GeneratorExp):
+                g = fx[0][1]
+                ok = len(g.generators) == 1 and not g.generators[0].ifs and paths.text(g.generators[0].iter) in (evs, f"iter({evs})") \
+                    and isinstance(g.elt, ast.Call) and call_name(g.elt) == "to_bytes" and len(g.elt.args) == 1 and not g.elt.keywords \
+                    and paths.text(g.elt.args[0]) == paths.text(g.generators[0].target)
     run.ob("B3", ok, "unmarshal maps events to chunks one-to-one, in order",
            "unmarshal no longer yields exactly to_bytes(e) for each event in order (filtering, reordering or merging)",
            module=mod, node=u, func="unmarshal", construct="unmarshal mapping")
